@@ -1488,6 +1488,9 @@ pub mod verif_hooks {
     }
     pub fn default_precision() -> u64 { DEFAULT_PRECISION }
     pub fn fmt_config() -> (usize, usize, usize) { impl_fmt::verif_fmt_config() }
+    pub fn highest_bit_lessthan_scaled(a: &BigUint, b: &BigUint, scale: u64) -> bool {
+        impl_cmp::verif_highest_bit_lessthan_scaled(a, b, scale)
+    }
     pub fn make_inv_guess(bit_count: u64, scale: i64) -> BigDecimal {
         arithmetic::inverse::verif_make_inv_guess(bit_count, scale)
     }
